@@ -38,13 +38,13 @@ func init() {
 	reg(&Prop{ID: "C02", Level: "exploration",
 		Quick:    Tier{Cases: 160000, PerJob: 10000, Seconds: 60},
 		Thorough: Tier{Cases: 6000000, PerJob: 100000, Seconds: 1200},
-		Rule:     "one case = tape-built blob (random / zero runs near multiples of max / constant / low-entropy / copied segments, 0..40*max bytes) x (min,avg,max) from a table incl. min=avg, min=max and random triples x one of {IndexFromFile with n in 1..16 under the seeded scheduler, ChunkStream with n in 1..8 over a fragmenting reader and a gated store, Chunker.Next over a fragmenting/failing reader}; oracle = independent reference chunker pinned to the casync-made testdata/chunker.index; distinct = distinct (entry point, n, sizes, scheduler trace hash); non-trivial = at least one preemption, a fragmenting reader or an injected reader error",
+		Rule:     "one case = tape-built blob (random / zero runs near multiples of max / constant / low-entropy / copied segments, 0..40*max bytes) x (min,avg,max) from a table incl. min=avg, min=max and random triples x one of {IndexFromFile with n in 1..16 under the seeded scheduler, ChunkStream with n in 1..8 over a fragmenting reader and a gated store, Chunker.Next over a fragmenting/failing reader}; oracle = independent reference chunker pinned to the casync-made testdata/chunker.index; distinct = distinct (entry point, n, sizes, scheduler trace hash); non-trivial = at least one preemption, a fragmenting reader or an injected reader error; 1/800 of the cases run the real `desync chunk -m` and `desync make -n N` (N = 1, 2..5, 6..16; sizes in KiB incl. min = avg = max; inputs incl. a long zero run with a short tail; both digests) and compare the printed boundaries/ids and the written index with the independent chunker and parser",
 		Assumptions: []string{
 			"scheduling granularity = channel operations, select, close, len(chan), Once.Do; plain field accesses between them are not interleaved (sound for data-race-free executions)",
 			"inputs are bounded by 64 KiB; chunk sizes 48..8192",
 			"the reference chunker tests the discriminator first at min+1 as the property states",
 		},
-		Real: []string{"Chunker", "IndexFromFile", "pChunker", "ChunkStream", "ChunkStorage", "NullChunk", "Digest"},
+		Real: []string{"Chunker", "IndexFromFile", "pChunker", "ChunkStream", "ChunkStorage", "NullChunk", "Digest", "the desync binary built from cmd/desync (process-level share)"},
 		Stub: []string{"input reader (fragmenting / failing)", "target store", "scheduler"},
 	})
 	reg(&Prop{ID: "C01", Level: "exploration",
